@@ -282,6 +282,17 @@ def run(ctx: Ctx, tier: str) -> Result:
         if f_.rule in ("C03.LOOP", "C03.MERGE"):
             res.fail(Finding("C11.KEEP", f_.func, f_.construct, f_.loc, f_.msg, f_.path))
 
+    # every tracepoint of the response is converted
+    crf = p.func("deep.grpc.convert_response")
+    btc = [c for c in t.calls_in(crf) if bt in t.resolve_call(c, crf).repo]
+    if btc:
+        lps_ = [l for l in paths.enclosing_loops(p, btc[0], crf) if isinstance(l, ast.For)]
+        src_ = ctx.expand.expand(lps_[0].iter, crf) if lps_ else []
+        cut_ = [n for l in lps_[:1] for n in ast.walk(l.iter) if isinstance(n, ast.Subscript)] + [n for l in lps_[:1] for n in ast.walk(l) if isinstance(n, (ast.Break, ast.Return))]
+        if lps_ and not cut_ and src_ and all(("@" + crf.params[0]) in x for x in src_):
+            res.ok("C11.KEEP", {"every tracepoint of the response is converted": crf.loc(lps_[0])})
+        else:
+            res.fail(Finding("C11.KEEP", crf.qname, cut_[0] if cut_ else (lps_[0].iter if lps_ else btc[0]), crf.loc(btc[0]), "not every tracepoint of a poll response is converted and installed"))
     # ---------------- ISOLATE
     for qn in ("deep.grpc.convert_response", "deep.config.tracepoint_config.TracepointConfigService.add_custom"):
         f = p.func(qn)
